@@ -500,6 +500,16 @@ def check_graph(ctx, Network, A, directed, cid, rng, heavy=True):
             T = sorted(int(v) for v in rng.choice(n, nt, replace=False))
             c.check("interregional_betweenness", "sources,targets",
                     R.interregional_betweenness(A, S, T), sources=S, targets=T)
+        # an empty selection of sources or targets (an empty list, array or
+        # range; the library itself asks this for the first / last sample of
+        # a visibility graph): no pair, the empty sum
+        if n >= 2:
+            S = sorted(int(v) for v in rng.choice(n, 2, replace=False))
+            empty = [[], np.arange(0), range(0)][int(rng.integers(0, 3))]
+            c.check("interregional_betweenness", "empty-selection",
+                    np.zeros(n), sources=empty, targets=S)
+            c.check("nsi_betweenness", "empty-selection", np.zeros(n),
+                    sources=S, targets=empty, counter="nsi_relations")
     else:
         # the kernel documents "contains each link twice!" and asserts it:
         # directed input is refused, not answered
